@@ -228,95 +228,150 @@ theorem datetime_field_independent (i o : Int) (ps : List Prog) (ht : ∀ q ∈ 
     (run { proc := (runAll fresh ps).proc, dirs := [] } (datetimeField i o)).out = (run fresh (datetimeField i o)).out :=
   runs_independent_std specFD (fun _ _ => rfl) ps ht _ (datetimeField_det i o)
 
-/-! ### what is still false for the code (defects D19b — now only through `parse_date` and non-default
-    zones —, D19d; interpretation D19) -/
+/-! ### Full strength for the code as it is since commit 885750c: any key for the date functions -/
+
+/-- the predicate under which the raw theorem is applied: after 885750c no aware datetime reaches a cache -/
+abbrev notAware : CacheId → Key → Bool := fun _ k => !k.isAware
+
+/-- the identity view: every continuation is invariant -/
+theorem id_view_invariant (kont : Obs → Prog) (o o' : Obs) (h : o.view id = o'.view id) : kont o = kont o' := by
+  rw [Obs.view_id, Obs.view_id] at h; rw [h]
+
+theorem tameC_tame {F : CacheId → Key → Val} {c : Code} (ht : TameC F c) : Tame F notAware (c.toProg true) := by
+  induction ht with
+  | done => exact .done
+  | fail => exact .fail
+  | emit _ ih => exact .emit ih
+  | @parseDate k v kont hv _ ih =>
+    simp only [Code.toProg]
+    cases k <;> simp only [parseDateCall]
+    case str s => exact .lookup (fun _ => hv s rfl) ih
+    all_goals exact ih _
+  | @parseDatetimespec k clk v kont hv _ ih =>
+    simp only [Code.toProg]
+    cases k <;> simp only [parseDatetimespecCall]
+    case str s =>
+      split
+      · exact .other (by intro c k v e; cases e) (fun _ => ih _)
+      · rename_i hne
+        exact .lookup (fun _ => hv s rfl (fun e => hne (Or.inl e)) (fun e => hne (Or.inr e))) ih
+    all_goals exact ih _
+  | @cached c k v kont hv _ ih =>
+    simp only [Code.toProg]
+    exact .lookup (fun hP => hv (by simpa [notAware] using hP)) ih
+  | op hne _ ih =>
+    simp only [Code.toProg]
+    exact .other hne ih
+
+theorem detC_det {F : CacheId → Key → Val} {h : Bool} {c : Code} (hd : DetC F h c) :
+    Det F notAware (fun _ => id) h (c.toProg true) := by
+  induction hd with
+  | done => exact .done
+  | fail => exact .fail
+  | emit _ ih => exact .emit ih
+  | @parseDate h k v kont hv _ ih =>
+    simp only [Code.toProg]
+    cases k <;> simp only [parseDateCall]
+    case str s => exact .lookup rfl (hv s rfl) (id_view_invariant _) ih
+    all_goals exact ih _
+  | @parseDatetimespec h k clk v kont hn ht hv _ ih =>
+    simp only [Code.toProg]
+    cases k <;> simp only [parseDatetimespecCall]
+    case str s =>
+      have h1 : ¬ (s = "now" ∨ s = "today") := by
+        rintro (e | e)
+        · exact hn (by rw [e])
+        · exact ht (by rw [e])
+      simp only [h1, if_false]
+      exact .lookup rfl (hv s rfl) (id_view_invariant _) ih
+    all_goals exact ih _
+  | @cached h c k v kont hk hv _ ih =>
+    simp only [Code.toProg]
+    exact .lookup (by simp [notAware, hk]) hv (id_view_invariant _) ih
+  | setHistory _ ih => simp only [Code.toProg]; exact .setHistory ih
+  | getHistory _ ih => simp only [Code.toProg]; exact .getHistory ih
+  | enterDir _ ih => simp only [Code.toProg]; exact .enterDir ih
+  | leaveDir _ ih => simp only [Code.toProg]; exact .leaveDir ih
+
+/-- **runs_independent_full** — the property statement at full strength for the repaired code: after any
+    sequence of earlier runs (arbitrary `Code`: unique ids, draws, clock, failures; dates given as strings,
+    date objects, naive or aware datetimes of *any* offset) a deterministic run — again with *any* keys for
+    `parse_date` / `parse_datetimespec` — emits exactly its fresh-process output, for every behaviour `F` of
+    the libraries behind the caches.  The remaining hypotheses are the purity of the library calls on
+    strings / ints / pairs (for the import cache that is exactly what D19d violates). -/
+theorem runs_independent_full (F : CacheId → Key → Val) (ps : List Code) (ht : ∀ q ∈ ps, TameC F q)
+    (p : Code) (hd : DetC F false p) :
+    (run { proc := (runAll fresh (ps.map (Code.toProg true))).proc, dirs := [] } (p.toProg true)).out
+      = (run fresh (p.toProg true)).out := by
+  apply runs_independent F notAware (fun _ => id) (compat_not_aware F) _ _ _ (detC_det hd)
+  intro q hq
+  obtain ⟨c, hc, rfl⟩ := List.mem_map.mp hq
+  exact tameC_tame (ht c hc)
 
 /-- a continuation that shows what came back -/
-def showOffset : Obs → Prog
+def showOffsetC : Obs → Code
   | .val (.aware _ o) => .emit (if o = 0 then "+00:00" else "other offset") .done
   | .val (.date d) => .emit (if d = 1 then "day 1" else "other day") .done
   | _ => .emit "?" .done
 
-/-- previous run: `date: 1970-01-01 20:00:00-12:00` (instant 1920 min, offset −720: local day 0) -/
-def primeDay : Prog := .op (.lookup .parseDate (.aware 1920 (-720)) (specFD .parseDate (.aware 1920 (-720)))) showOffset
-/-- this run: `date: 1970-01-02 08:00:00+00:00` (the same instant, offset 0: local day 1) -/
-def probeDay : Prog := .op (.lookup .parseDate (.aware 1920 0) (specFD .parseDate (.aware 1920 0))) showOffset
+/-- `date: 1970-01-01 20:00:00-12:00` (instant 1920 min, offset −720: local day 0) -/
+def primeDay : Code := .parseDate (.aware 1920 (-720)) (specFD .parseDate (.aware 1920 (-720))) showOffsetC
+/-- `date: 1970-01-02 08:00:00+00:00` (the same instant, offset 0: local day 1) -/
+def probeDay : Code := .parseDate (.aware 1920 0) (specFD .parseDate (.aware 1920 0)) showOffsetC
 
-/-- **frame_deterministic_refuted** (D19b, as it reproduces on the current tree): with `P = every key`
-    the statement of `runs_independent` is false although both programs are deterministic and the
-    cached function is the one the source defines (`specFD`): after `primeDay` the probe is served the
-    calendar day of the `-12:00` spelling. -/
-theorem frame_deterministic_refuted :
-    Det specFD (fun _ _ => true) stdV false primeDay ∧ Det specFD (fun _ _ => true) stdV false probeDay
-    ∧ (run fresh probeDay).out = (["day 1"], true)
-    ∧ (run { proc := (runAll fresh [primeDay]).proc, dirs := [] } probeDay).out = (["other day"], true) := by
-  refine ⟨.lookup rfl rfl (view_id_invariant (fun _ => rfl) _) ?_,
-          .lookup rfl rfl (view_id_invariant (fun _ => rfl) _) ?_, by decide, by decide⟩
-  · intro obs; unfold showOffset; split <;> exact .emit .done
-  · intro obs; unfold showOffset; split <;> exact .emit .done
+/-- non-vacuity: the former D19b witness is a deterministic run in the sense of the full theorem… -/
+theorem probeDay_det (F : CacheId → Key → Val) : DetC F false probeDay ∧ TameC F primeDay := by
+  constructor
+  · refine .parseDate (by intro s e; cases e) ?_
+    intro o; unfold showOffsetC; split <;> exact .emit .done
+  · refine .parseDate (by intro s e; cases e) ?_
+    intro o; unfold showOffsetC; split <;> exact .emit .done
 
-/-- FULL STATEMENT of the property for deterministic programs — *still false for the code as it is*:
+/-- …and on the repaired code it emits its own calendar day after the `-12:00` spelling ran -/
+theorem date_of_aware_datetime_independent :
+    (run { proc := (runAll fresh [primeDay.toProg true]).proc, dirs := [] } (probeDay.toProg true)).out = (["day 1"], true)
+    ∧ (run fresh (probeDay.toProg true)).out = (["day 1"], true) := by
+  constructor <;> decide
 
-      ∀ ps p, (∀ q ∈ ps, Det specFD (fun _ _ => true) stdV false q) → Det specFD (fun _ _ => true) stdV false p →
-        (run { proc := (runAll fresh ps).proc, dirs := [] } p).out = (run fresh p).out
+/-- **old_behaviour_date_cache_aliased** (D19b, repaired by commit 885750c): with the whole function cached
+    (`onlyStrings = false`) the same two runs gave the first spelling's calendar day -/
+theorem old_behaviour_date_cache_aliased :
+    (run fresh (probeDay.toProg false)).out = (["day 1"], true)
+    ∧ (run { proc := (runAll fresh [primeDay.toProg false]).proc, dirs := [] } (probeDay.toProg false)).out
+        = (["other day"], true) := by
+  constructor <;> decide
 
-    (`specFD` = what `parse_date` / `parse_datetimespec` compute on structured keys; `P` = every key;
-    `stdV` = today's views.)  **runs_independent_refuted**: the negation, by the witness above. -/
-theorem runs_independent_refuted :
-    ¬ (∀ (ps : List Prog) (p : Prog), (∀ q ∈ ps, Det specFD (fun _ _ => true) stdV false q) →
-        Det specFD (fun _ _ => true) stdV false p →
-        (run { proc := (runAll fresh ps).proc, dirs := [] } p).out = (run fresh p).out) := by
-  intro h
-  obtain ⟨h1, h2, h3, h4⟩ := frame_deterministic_refuted
-  have := h [primeDay] probeDay (by intro q hq; simp at hq; subst hq; exact h1) h2
-  rw [h3, h4] at this
-  exact absurd this (by decide)
-
-/-- **runs_independent_partial**: the statement holds under the explicit, decidable restriction `stdP`
-    (no aware datetime as a key of `parse_date`, `randomizer`, `mask_for_key`, the import cache) — the
-    restriction on `parse_datetimespec` that was needed before commit f914bf1 is gone. -/
-theorem runs_independent_partial (F : CacheId → Key → Val)
-    (hspec : ∀ i o, F .parseDatetimespec (.aware i o) = .aware i o)
-    (ps : List Prog) (ht : ∀ q ∈ ps, Tame F stdP q) (p : Prog) (hd : Det F stdP stdV false p) :
-    (run { proc := (runAll fresh ps).proc, dirs := [] } p).out = (run fresh p).out :=
-  runs_independent_std F hspec ps ht p hd
-
-/-- the cause: `parse_date` tells Python-equal keys apart (the calendar day depends on the offset) -/
+/-- why caching datetimes was wrong: `parse_date` tells Python-equal keys apart (the calendar day depends on
+    the offset) — a fact about the function and Python's key equality, no longer about the cache -/
 theorem specFD_not_compat : ¬ Compat specFD (fun _ _ => true) stdV := by
   intro h
   have := (h .parseDate (.aware 1920 (-720)) (.aware 1920 0) rfl (by decide)).2
   exact absurd this (by decide)
 
-/-- …while under `stdP` the source's own functions are compatible -/
 theorem specFD_compat_std : Compat specFD stdP stdV := compat_std specFD (fun _ _ => rfl)
 
-/-- a fact about the cache *cell* (not about run outputs any more): the `parse_datetimespec` cache still
-    serves the object stored under another Python-equal key — here the `-12:00` object for the `+00:00`
-    argument -/
-theorem parse_datetimespec_cache_aliases :
-    (step { proc := (runAll fresh [.op (.lookup .parseDatetimespec (.aware 720 (-720)) (.aware 720 (-720))) (fun _ => .done)]).proc,
-            dirs := [] }
-          (.lookup .parseDatetimespec (.aware 720 0) (.aware 720 0))).2 = .val (.aware 720 (-720)) := by
-  decide
-
-/-- …which stays observable through `datetime:` with a non-default zone (`timezone: +05:00` relabels a
-    UTC value but converts a `-12:00` value) or with `timezone: False` -/
-theorem datetime_other_zone_aliasing :
+/-- `datetime:` with a non-default zone distinguishes the two spellings of one instant — harmless now that each
+    call gets the object it passed -/
+theorem datetime_other_zone_distinguishes :
     datetimeFn (some 300) (.aware 720 (-720)) ≠ datetimeFn (some 300) (.aware 720 0)
     ∧ datetimeFn none (.aware 720 (-720)) ≠ datetimeFn none (.aware 720 0) := by
   constructor <;> decide
 
-/-- the same through `parse_date` stated on outputs (`date: 1970-01-01 20:00:00-12:00`, then
-    `date: 1970-01-02 08:00:00+00:00`): the calendar day of the *first* spelling is served -/
-theorem parse_date_aliasing :
-    (run fresh probeDay).out = (["day 1"], true)
-    ∧ (run { proc := (runAll fresh [primeDay]).proc, dirs := [] } probeDay).out = (["other day"], true) := by
+/-- `now` is read from the clock on every call since 885750c (it used to be cached: D19) -/
+theorem now_is_not_cached :
+    let now (t : Int) : Code := .parseDatetimespec (.str "now") t (.aware t 0)
+        (fun o => .emit (match o with | .val (.aware 100 _) => "t=100" | _ => "another instant") .done)
+    (run { proc := (runAll fresh [(now 5).toProg true]).proc, dirs := [] } ((now 100).toProg true)).out = (["t=100"], true)
+    ∧ (run { proc := (runAll fresh [(now 5).toProg false]).proc, dirs := [] } ((now 100).toProg false)).out
+        = (["another instant"], true) := by
   constructor <;> decide
+
+/-! ### what is still false for the code (defect D19d; interpretation D19) -/
 
 /-- **import_cache_aliasing** (D19d): `sys.modules` is keyed by the module *name*, while a local plugin
     is resolved against the recipe's own `plugins/` directory — the value is not a function of the key,
-    the hypothesis `v = F c k` of `Tame` cannot hold for two recipes in different directories, and the
-    second recipe runs the first one's module. -/
+    the purity hypothesis of `TameC.cached` / `DetC.cached` cannot hold for two recipes in different
+    directories, and the second recipe runs the first one's module. -/
 theorem import_cache_aliasing :
     let recipeA : Prog := .op (.lookup .importModule (.str "myplug") (.obj 1)) (fun _ => .done)
     let recipeB : Prog := .op (.lookup .importModule (.str "myplug") (.obj 2))
@@ -331,16 +386,6 @@ theorem unique_ids_depend_on_history :
     let p : Prog := .op .newGenerator (fun o => .emit (match o with | .nat 1 => "context 1" | _ => "later context") .done)
     (run fresh p).out = (["context 1"], true)
     ∧ (run { proc := (runAll fresh [p]).proc, dirs := [] } p).out = (["later context"], true) := by
-  constructor <;> decide
-
-/-- **cached_now_is_stale** (D19): `parse_datetimespec("now")` is cached — the clock value a later run
-    passes is ignored, the first run's instant is served (clock functions are outside `Det`) -/
-theorem cached_now_is_stale :
-    let now (t : Int) : Prog := .op (.clock t) (fun _ =>
-      .op (.lookup .parseDatetimespec (.str "now") (.aware t 0))
-        (fun o => .emit (match o with | .val (.aware 100 _) => "t=100" | _ => "another instant") .done))
-    (run fresh (now 100)).out = (["t=100"], true)
-    ∧ (run { proc := (runAll fresh [now 5]).proc, dirs := [] } (now 100)).out = (["another instant"], true) := by
   constructor <;> decide
 
 /-! ## 4. The identity generator: ids are consecutive from the process-wide count, never shared -/
